@@ -79,12 +79,22 @@ def sources_in(e, getter):
             coll = render(base)
             var = render(cl["inputs"][0]) if cl["inputs"] else "?"
             inner = sources_in(cl["body"], getter)
+            # the mapped facts count as `all known` only when they are consumed by an all-or-nothing combinator:
+            # DegreeRange::iter_opt (evaluated by C07.1: None as soon as one element is None) or a collect into Option
+            strict = False
+            for c_ in walk(e):
+                if c_["k"] == "Call" and c_["func"]["k"] == "Path" and last(c_["func"]["path"]) == "iter_opt" and any(x is n for a_ in c_["args"] for x in walk(a_)):
+                    strict = True
+                if c_["k"] == "MethodCall" and c_["method"] == "collect" and "Option" in str(c_.get("turbofish") or "") and any(x is n for x in walk(c_["recv"])):
+                    strict = True
+                if c_["k"] == "MethodCall" and c_["method"] in ("all", "any") and any(x is n for x in walk(c_["recv"])):
+                    strict = True
             if ("sub", var) in inner:
                 out.discard(("sub", var))
-                out.add(("all-sub", coll))
+                out.add(("all-sub", coll) if strict else ("some-sub", coll))
             if ("env", var) in inner:
                 out.discard(("env", var))
-                out.add(("all-env", coll))
+                out.add(("all-env", coll) if strict else ("some-env", coll))
     return out
 
 
